@@ -59,6 +59,17 @@ def run(chk):
     for src, w in [("has(1)", "OK b1"), ("has(null)", "OK b1"), ("has(false)", "OK b1"), ("has(m1.a)", "OK b1"),
                    ("has(m1.b)", "OK b0"), ("has(m1['b'])", "OK b0"), ("has(zz)", "OK b0"), ("has(m1) && has(m1.a)", "OK b1")]:
         add(src, [("m1", vmap([("a", vi(1))]))], w)
+    # absent data in CONSTANT maps (the compiler folds the lookup to an error constant): still absent data
+    for src, w in [("coalesce({'a': 1}['b'], 5)", "OK " + vi(5)), ("coalesce({'a': 1}.b, 5)", "OK " + vi(5)),
+                   ("coalesce(null, {'a': 1}['b'], 7)", "OK " + vi(7)), ("[1, 2].map(i, coalesce({'a': 1}['b'], i))", "OK " + vlist([vi(1), vi(2)])),
+                   ("has({'a': 1}['b'])", "OK b0"), ("has({'a': 1}.b)", "OK b0"), ("coalesce({'a': {'c': 1}}['a']['z'], 9)", "OK " + vi(9)),
+                   ("coalesce({'a': {'c': 1}}.a.z, 9)", "OK " + vi(9)), ("coalesce({'a': 1}['b'])", "OK n"), ("has({'a': 1}['a'])", "OK b1"),
+                   ("coalesce({'a': null}['a'], 3)", "OK " + vi(3)), ("coalesce({'a': 1}['b'], {'a': 1}['c'], {'a': 1}['a'])", "OK " + vi(1)),
+                   ("coalesce({'a': 1}['b'], 1 / 0)", "ERRANY"), ("coalesce([1][5], 2)", "ERRANY"), ("coalesce({'a': 1}[0], 2)", "ERRANY"),
+                   ("coalesce(m1['zz'], {'a': 1}['b'], 4)", "OK " + vi(4)), ("has({'a': 1}['b']) || coalesce({}['k'], true)", "OK b1")]:
+        cases.append(evalsrc_case(src, binds=[("m1", vmap([("a", vi(1))]))], std=False))
+        want.append(w)
+        labels.append(src + "  [constant map]")
     # a bare name resolves like anywhere else: a type name, a bound variable, or another program of the same context
     progs = [("limit", "5"), ("ratio", "1 / 0"), ("nothing", "null"), ("alias", "limit"), ("missing", "zz9")]
     for src, w in [("has(limit)", "OK b1"), ("has(ratio)", "ERRANY"), ("has(nothing)", "OK b1"), ("has(alias)", "OK b1"),
